@@ -6,8 +6,12 @@ from rulelib import mem_fields
 WIDEN = re.compile(r"<impl (std::convert::)?From<u(8|16|32)> for u(16|32|64|size)>::from$|^std::convert::From::from$|^<u(16|32|64|size) as std::convert::From<u(8|16|32)>>::from$")
 
 
+PURE_GETTERS = re.compile(r"(VarInt::into_inner|SessionId::into_u64|StreamId::into_u64|QStreamId::into_u64|::into_varint|StatusCode::into_inner)$")
+
+
 def core(e):
-    """strip references, lossless widenings and no-op casts"""
+    """strip references, lossless widenings and no-op casts; calls of pure getters on the same
+    (immutable, by-value) argument are identified regardless of the call site"""
     while isinstance(e, tuple):
         if e[0] in ("ref", "deref"):
             e = e[1]
@@ -17,11 +21,15 @@ def core(e):
             e = e[2][0]
         else:
             break
+    if isinstance(e, tuple) and e[0] == "call" and PURE_GETTERS.search(e[1]) and len(e) > 3:
+        return ("call", e[1], tuple(core(a) for a in e[2]), 0)
     return e
 
 
 def cval(e):
     e = core(e)
+    if isinstance(e, tuple) and e[0] == "call" and re.match(r"^<(u8|u16|u32|u64|usize) as std::default::Default>::default$", e[1]):
+        return 0
     v = const_val(e)
     return v if isinstance(v, int) and not isinstance(v, bool) else None
 
